@@ -54,14 +54,29 @@ def sh(cmd, timeout=600, cwd=None, env=None, input=None, check=False):
     return rc, out
 
 
+_LOCK_DEPTH = {}
+
+
 @contextlib.contextmanager
 def locked(name):
+    """Inter-process lock (flock), re-entrant within this process: a caller that already holds
+    the lock (e.g. the Coq stage, which keeps it across parameter regeneration, make and coqc so
+    that no other run can rebuild a shared .vo in between) may call helpers that take it again."""
+    if _LOCK_DEPTH.get(name, 0) > 0:
+        _LOCK_DEPTH[name] += 1
+        try:
+            yield
+        finally:
+            _LOCK_DEPTH[name] -= 1
+        return
     os.makedirs(os.path.join(VERIF, "build"), exist_ok=True)
     f = open(os.path.join(VERIF, "build", ".lock-" + name), "w")
     fcntl.flock(f, fcntl.LOCK_EX)
+    _LOCK_DEPTH[name] = 1
     try:
         yield
     finally:
+        _LOCK_DEPTH[name] = 0
         fcntl.flock(f, fcntl.LOCK_UN)
         f.close()
 
@@ -174,6 +189,11 @@ def coq_check_properties(ctx, extra_targets=()):
     pf = "Properties_%s.v" % prop
     info = {"file": "coq/" + pf, "ok": False, "theorems": [], "forbidden": [], "log": ""}
     ctx.coq = info
+    with locked("coq"):
+        return _coq_check_properties_locked(ctx, info, prop, pf, extra_targets)
+
+
+def _coq_check_properties_locked(ctx, info, prop, pf, extra_targets):
     if ctx.params_hook:
         ctx.params_hook(ctx)
     deps = coq_deps(pf)
@@ -223,12 +243,12 @@ def build_model(ctx, driver=None, extract=None, extra=()):
     mld = os.path.join(ctx.build, "ml")
     os.makedirs(mld, exist_ok=True)
     deps = [f[:-2] + ".vo" for f in coq_deps(extract) if f != extract]
-    ok, out = coq_make(deps)
-    if not ok:
-        raise BuildError("Coq model does not build:\n" + out[-3000:])
     for f in glob.glob(os.path.join(mld, "*.ml*")):
         os.remove(f)
     with locked("coq"):
+        ok, out = coq_make(deps)
+        if not ok:
+            raise BuildError("Coq model does not build:\n" + out[-3000:])
         sh(["coqc", "-Q", COQ, "DuneV", "-w", "-extraction-opaque-accessed,-extraction-reserved-identifier,-notation-overridden,-deprecated-hint-without-locality,-ambiguous-paths,-redundant-canonical-projection,-deprecated-instance-without-locality",
             "-o", os.path.join(mld, extract[:-2] + ".vo"), os.path.join(COQ, extract)], cwd=mld, timeout=900, check=True)
     mls = sorted(glob.glob(os.path.join(mld, "*.ml")))
